@@ -135,22 +135,24 @@ def CleanRegion (st : St) : Op → Prop
 
 /-- C09-media-accepts-variables, C09-page-accepts-nonmargin: `container.insertRule` lets a kind through that the
 container cannot hold -/
-def NestedRegion (st : St) : Op → Prop
+def nestedRegionB (st : St) : Op → Bool
   | .nInsert path s _ _ => match atPath st.rules path with
-    | some c => containerRejects c.kind s.kind = false ∧ allowedIn c.kind s.kind = false
-    | none => False
-  | _ => False
+    | some c => !containerRejects c.kind s.kind && !allowedIn c.kind s.kind
+    | none => false
+  | _ => false
+def NestedRegion (st : St) (op : Op) : Prop := nestedRegionB st op = true
 
 /-- C09-text-replace-keeps-parent: an accepted `cssText = …` on a sheet / container that held rules: the replaced
 rule objects keep their parent pointers -/
-def ReplaceRegion (st : St) : Op → Prop
-  | .setText specs => st.rules ≠ [] ∧
-      (parseTop st.raising { acc := [], nd := [], level := 0, next := st.next } specs).isOk = true
+def replaceRegionB (st : St) : Op → Bool
+  | .setText specs => !st.rules.isEmpty &&
+      (parseTop st.raising { acc := [], nd := [], level := 0, next := st.next } specs).isOk
   | .nSetText path kids => match atPath st.rules path with
-    | some c => isContainer c = true ∧ c.kids ≠ [] ∧
-        (cSetText st.raising (nsDict st.rules) st.next c kids).2.2.2 = .none
-    | none => False
-  | _ => False
+    | some c => isContainer c && !c.kids.isEmpty &&
+        (cSetText st.raising (nsDict st.rules) st.next c kids).2.2.2 == .none
+    | none => false
+  | _ => false
+def ReplaceRegion (st : St) (op : Op) : Prop := replaceRegionB st op = true
 
 /-- all regions of listed known findings about the state (not about the returned index) -/
 def Region (st : St) (op : Op) : Prop :=
@@ -169,6 +171,27 @@ structure Valid (st : St) : Prop where
   kids : ∀ r ∈ st.rules, r.kidsOK = true
   links : ∀ r ∈ st.rules, r.linksOK none true = true
   gone : ∀ g ∈ st.gone, g.linksOK none false = true
+
+instance (st : St) (op : Op) : Decidable (AdoptRegion st op) := by
+  cases op <;> unfold AdoptRegion <;> exact inferInstance
+instance (st : St) (op : Op) : Decidable (CleanRegion st op) := by
+  cases op <;> unfold CleanRegion <;> exact inferInstance
+instance (st : St) (op : Op) : Decidable (NestedRegion st op) := by unfold NestedRegion; exact inferInstance
+instance (st : St) (op : Op) : Decidable (ReplaceRegion st op) := by unfold ReplaceRegion; exact inferInstance
+instance (st : St) (op : Op) : Decidable (Region st op) := by unfold Region; exact inferInstance
+instance (op : Op) : Decidable (OpOK op) := by cases op <;> unfold OpOK <;> exact inferInstance
+
+/-- a history none of whose operations falls into a region of a listed finding (judged at the state it is applied to) -/
+def Clean (st : St) : List Op → Prop
+  | [] => True
+  | op :: ops => OpOK op ∧ ¬ Region st op ∧ Clean (step st op).1 ops
+
+def cleanDec : (st : St) → (ops : List Op) → Decidable (Clean st ops)
+  | _, [] => isTrue trivial
+  | st, op :: ops =>
+    have : Decidable (Clean (step st op).1 ops) := cleanDec (step st op).1 ops
+    by unfold Clean; exact inferInstance
+instance (st : St) (ops : List Op) : Decidable (Clean st ops) := cleanDec st ops
 
 /-- Bool rendering of `Valid` (for `decide` at witnesses and for the driver) -/
 def validB (st : St) : Bool :=
